@@ -3,9 +3,11 @@ package c38
 import (
 	"context"
 	"encoding/binary"
+	"fmt"
 	"net"
 	"strings"
 	"sync"
+	"time"
 )
 
 // A tiny authoritative DNS stub on a loopback UDP socket. The harness points
@@ -17,7 +19,7 @@ import (
 var (
 	dnsMu    sync.Mutex
 	dnsPhase int                // 0: answers at check time, 1: answers at dial time
-	dnsCount = map[string]int{} // A queries seen per name since the last setPhase
+	dnsCount = map[string]int{} // queries seen per name AND query type since the last setPhase (key: name|type)
 	dnsTable = map[string][3][]string{
 		// name: {answers in phase 0, answers in phase 1, answers to every later look-up within phase 1 (if any)}
 		"pub.test.":          {{"8.8.8.8"}, {"8.8.8.8"}, nil},
@@ -51,7 +53,8 @@ var (
 	}
 )
 
-// lookupsOf reports how many A queries were seen for a name since the last setPhase.
+// lookupsOf reports how many resolutions of a name were seen since the last setPhase
+// (every resolution asks exactly one A question).
 func lookupsOf(name string) int {
 	dnsMu.Lock()
 	defer dnsMu.Unlock()
@@ -59,7 +62,60 @@ func lookupsOf(name string) int {
 	if !strings.HasSuffix(k, ".") {
 		k += "."
 	}
-	return dnsCount[k]
+	return dnsCount[k+"|1"]
+}
+
+// servedBoth reports whether both questions (A and AAAA) of a resolution of name have been answered.
+func servedBoth(name string) bool {
+	dnsMu.Lock()
+	defer dnsMu.Unlock()
+	k := strings.ToLower(name)
+	if !strings.HasSuffix(k, ".") {
+		k += "."
+	}
+	return dnsCount[k+"|1"] >= 1 && dnsCount[k+"|28"] >= 1
+}
+
+// inTable reports whether the stub answers for name.
+func inTable(name string) bool {
+	k := strings.ToLower(name)
+	if !strings.HasSuffix(k, ".") {
+		k += "."
+	}
+	_, ok := dnsTable[k]
+	return ok
+}
+
+// dialContext returns a context for one guarded dial / request that does not depend on how fast
+// the machine is: for a name served by the stub it is cancelled a fixed grace period AFTER the
+// stub has answered the resolution (so the resolution itself can never be cut short by load);
+// for anything else (IP literals, unknown names: no stub resolution to wait for) it carries a
+// plain deadline. Connects to blackholed public addresses are what the cancellation ends.
+func dialContext(host string, grace, literal time.Duration) (context.Context, context.CancelFunc) {
+	if !inTable(host) {
+		return context.WithTimeout(context.Background(), literal)
+	}
+	ctx, cancel := context.WithTimeout(context.Background(), 20*time.Second)
+	go func() {
+		t := time.NewTicker(2 * time.Millisecond)
+		defer t.Stop()
+		for {
+			select {
+			case <-ctx.Done():
+				return
+			case <-t.C:
+				if servedBoth(host) {
+					select {
+					case <-ctx.Done():
+					case <-time.After(grace):
+						cancel()
+					}
+					return
+				}
+			}
+		}
+	}()
+	return ctx, cancel
 }
 
 func setPhase(p int) {
@@ -76,13 +132,14 @@ func answersFor(name string, qtype uint16) ([][]byte, bool) {
 	if !ok {
 		return nil, false
 	}
+	// The k-th query OF THIS TYPE for the name decides which answer is served, so the A and the
+	// AAAA question of one resolution (sent in parallel, in either order) always see the same
+	// schedule position: query #1 of a type = the resolution being vetted, #2.. = later ones.
+	key := strings.ToLower(name) + "|" + fmt.Sprint(qtype)
+	dnsCount[key]++
 	list := e[dnsPhase]
-	key := strings.ToLower(name)
-	if dnsPhase == 1 && len(e[2]) > 0 && dnsCount[key] >= 1 {
+	if dnsPhase == 1 && len(e[2]) > 0 && dnsCount[key] >= 2 {
 		list = e[2]
-	}
-	if qtype == 1 {
-		dnsCount[key]++
 	}
 	var out [][]byte
 	for _, s := range list {
